@@ -12,8 +12,8 @@ Invariants are EXACT characterisations, so nothing registered is expected to fai
   SSE as is {LF, CR}; SSE split: none up to JSON whitespace ({CR} byte-exact: CR arrives as LF); LF-delimited {LF} and
   the empty message; varint: none.  Through the JSON reply encoder only CR still reaches the SSE framing (ReachSSE).
 Bounds: quick = every single message of length <=4 and every pair of length <=2 over {LF CR : SP d { " x}
-(table.cfg, 10042 rows incl. 31 EventSource conformance vectors); thorough adds singles <=5 / pairs <=3 (8 symbols),
-pairs <=4 over {LF CR : SP d x}, triples <=2.
+(quick.cfg with Table = TRUE, 10042 rows incl. 31 EventSource conformance vectors); thorough adds singles <=5 / pairs <=3 (8 symbols),
+pairs <=4 over {LF CR : SP x}, triples <=2 over {LF CR : SP d x}.
 
 Code side.  (F) every enumerated row (wire bytes + parse result per framing, cross-parses of the wires by the other
 parsers, conformance vectors) is replayed into the harness's own streaming Go parsers for every 2-chunking and byte
@@ -22,11 +22,11 @@ the real SSEHandler (GET cf_connect and POST), HTTPStreamHandler (JSON and Proto
 connection per (transport, byte class, field): publication data, connect data, subscribe data, conn/chan info,
 Send() messages, RPC results (raw JSON / raw bytes), channel names, tags, error messages, disconnect reasons
 (strings), pings, multi-message flushes (write delay), 100 KiB messages, Protobuf message lengths across
-127/128 and 16383/16384 (thorough: 2097151/2097152), seed-dependent random JSON with random SP/TAB/LF/CR/CRLF between
+127/128 and 16383/16384 (2097151/2097152: the real encoder directly), seed-dependent random JSON with random SP/TAB/LF/CR/CRLF between
 tokens.  The body is read incrementally; ground truth = the messages OnTransportWrite saw.  Checked: same number of
 records, each decodes to the same message (JSON: equal JSON values + accepted by protocol's reply decoder; Protobuf:
 equal bytes), in order; published payloads arrive equal end to end; every message handed to the transport arrives
-within 5 s on an otherwise idle connection ("held-back").  (T) recorded bodies <= 1500 bytes are parsed again by
+within 10 s on an otherwise idle connection ("held-back").  (T) recorded bodies <= 1500 bytes are parsed again by
 the SPEC's parsers in TLC (FramingWire.tla); its verdicts must agree with the Go verdicts, and it names the framing
 operator that produced exactly these bytes (asis/split/both; "neither" = drift).
 
@@ -79,12 +79,12 @@ def c32(c):
     # ---- 1. the design: Parse(Frame(msgs)) = msgs exactly when no unsafe byte class occurs (TLC, exhaustive)
     old = _jvm('-XX:ParallelGCThreads=4')
     try:
-        runs = [] if quick else ['thorough.cfg', 'thorough6.cfg', 'triples.cfg']
+        runs = [] if quick else ['thorough.cfg', 'thorough5.cfg', 'triples.cfg']
         for cfg in runs:
             r = c.tlc_exhaustive('Framing', 'Framing', cfg, timeout=1500)
             c.log('TLC %s: %d message lists, round trip <=> no unsafe class; ASSUMEd classes hold' % (cfg, r['distinct']))
         # ---- 2. the table: wires and parse results for small lists + EventSource conformance vectors
-        r = c.tlc_exhaustive('Framing', 'Framing', 'table.cfg', dump=True, timeout=600)
+        r = c.tlc_exhaustive('Framing', 'Framing', 'quick.cfg', dump=True, timeout=600)
     finally:
         _jvm_restore(old)
     rows = c.dump_states(r)
@@ -162,7 +162,7 @@ def c32(c):
     c.cov['framing_variants'] = variants
     c.cov['unsafe_classes'] = unsafe
     c.cov['rule'] = ('model: every list of <=2 messages (quick: single messages of length <=4, pairs of length <=2; thorough: singles <=5 / pairs <=3 '
-                     'over the 8-symbol alphabet, pairs <=4 over {LF,CR,:,SP,d,x}, triples <=2) through every framing and its standard parser; '
+                     'over the 8-symbol alphabet, pairs <=4 over {LF,CR,:,SP,x}, triples <=2 over {LF,CR,:,SP,d,x}) through every framing and its standard parser; '
                      'code: one connection per (transport, byte class, field); non-trivial = distinct (transport, protocol, class, field) signatures '
                      'whose messages went through a real handler and were compared record by record')
     c.cov['samples'] = (tres['samples'] or [])[:1] + (rres['samples'] or [])[:2]
@@ -190,7 +190,7 @@ META = {'C32': dict(
          'message by message with what the server handed to the transport and with what was published; recorded bodies are parsed once more '
          'by the specification itself in TLC.',
     note='Exhaustive for the framing design within the bounds (quick: singles <=4, pairs <=2 over 8 byte classes; thorough: singles <=5, '
-         'pairs <=3, pairs <=4 over 6 classes, triples <=2); the real handlers are sampled by class: one connection per (transport, byte '
+         'pairs <=3, pairs <=4 over 5 classes, triples <=2 over 6 classes); the real handlers are sampled by class: one connection per (transport, byte '
          'class, field) plus seed-dependent random JSON whitespace, not all byte strings. HTTP/1.1 only. Trusted: TLC, lib/tlaparse.py, the '
          'comparison code of the harness, encoding/json as the JSON equality oracle, OnTransportWrite as the list of server messages.',
     technique='TLA+ transcription of the client parsers and the handlers\' framing + TLC exhaustive enumeration; function-table replay into the harness '
